@@ -33,6 +33,7 @@ func (e *Engine) verifyFunc(fn *ssa.Function) (u *Unit) {
 	ct := e.contracts[funcName(fn)]
 	st := &State{h: map[string]string{}}
 	st.alloc = u.declare("alloc0", "Int")
+	u.alloc0 = st.alloc
 	u.assume("true", fmt.Sprintf("(> %s 0)", st.alloc))
 	fr := u.newFrame(fn, 0, false, "")
 	fr.contract = ct
@@ -100,6 +101,12 @@ func (e *Engine) verifyFunc(fn *ssa.Function) (u *Unit) {
 		}
 	}
 	if ct != nil {
+		for _, cl := range ct.Loops {
+			if cl.Loop > len(fr.loops) {
+				e.stale = append(e.stale, fmt.Sprintf("%s: invariant %s names loop %d but the function has %d loops", funcName(fn), cl.Label, cl.Loop, len(fr.loops)))
+				u.oblige(fr.obName("inv-init", fmt.Sprintf("loop%d.%s", cl.Loop, cl.Label)), "inv-init", cl.Tags, "true", "false", fr.pos(fn.Pos()), "loop not found: "+cl.Text)
+			}
+		}
 		for _, cl := range ct.Asserts {
 			if !u.assertsSeen[cl.Label] {
 				u.oblige(fr.obName("assert", cl.Label), "assert", cl.Tags, "true", "false", fr.pos(fn.Pos()),
@@ -149,6 +156,9 @@ func (fr *frame) callSiteAsserts(call ssa.CallInstruction, args []*Val, st *Stat
 	c := call.Common()
 	labels := calleeLabel(fr, c)
 	for _, cl := range fr.contract.Asserts {
+		if cl.AtStore {
+			continue
+		}
 		match := false
 		for _, l := range labels {
 			if l == cl.Callee {
@@ -188,6 +198,29 @@ func (fr *frame) callSiteAsserts(call ssa.CallInstruction, args []*Val, st *Stat
 			continue
 		}
 		sargs = append(sargs, args[:need]...)
+		if cl.Ordinal == 0 {
+			// "every occurrence" anchors apply only to calls whose argument types fit the clause
+			fit := true
+			var ats []types.Type
+			if c.IsInvoke() {
+				ats = append(ats, c.Value.Type())
+			} else if c.StaticCallee() == nil {
+				if _, isB := c.Value.(*ssa.Builtin); !isB {
+					ats = append(ats, c.Value.Type())
+				}
+			}
+			for _, a := range c.Args {
+				ats = append(ats, a.Type())
+			}
+			for i := 0; i < need && i < len(ats); i++ {
+				if !types.Identical(cl.Fn.Params[len(fr.params)+i].Type(), ats[i]) {
+					fit = false
+				}
+			}
+			if !fit {
+				continue
+			}
+		}
 		okLocals := true
 		for _, name := range cl.VarLocal {
 			lv := fr.localNamed(name, call, st)
@@ -316,5 +349,71 @@ func (u *Unit) emitAxioms(fr *frame, st *State) {
 			u.assume("true", fmt.Sprintf("(forall (%s) %s)", strings.Join(binders, " "), body))
 		}
 		u.axiomsUsed = append(u.axiomsUsed, ax.Name)
+	}
+}
+
+
+// storeSiteAsserts: assert@store <field> #n ... anchored at the n-th (source order) store to a field of that name.
+func (fr *frame) storeSiteAsserts(x *ssa.Store, st *State, reach string) {
+	if fr.depth != 0 || fr.contract == nil || fr.pure {
+		return
+	}
+	fieldOf := func(s *ssa.Store) string {
+		fa, ok := s.Addr.(*ssa.FieldAddr)
+		if !ok {
+			return ""
+		}
+		stt, ok := fa.X.Type().Underlying().(*types.Pointer).Elem().Underlying().(*types.Struct)
+		if !ok {
+			return ""
+		}
+		return stt.Field(fa.Field).Name()
+	}
+	name := fieldOf(x)
+	if name == "" {
+		return
+	}
+	for _, cl := range fr.contract.Asserts {
+		if !cl.AtStore || cl.Callee != name || cl.Fn == nil {
+			continue
+		}
+		if cl.Ordinal > 0 {
+			var sites []*ssa.Store
+			for _, b := range fr.fn.Blocks {
+				for _, in := range b.Instrs {
+					if s, ok := in.(*ssa.Store); ok && fieldOf(s) == name {
+						sites = append(sites, s)
+					}
+				}
+			}
+			sort.Slice(sites, func(i, j int) bool { return sites[i].Pos() < sites[j].Pos() })
+			if cl.Ordinal > len(sites) || sites[cl.Ordinal-1] != x {
+				continue
+			}
+		}
+		sargs := append([]*Val{}, fr.params...)
+		need := len(cl.Fn.Params) - len(sargs) - len(cl.VarNames)
+		if need == 1 {
+			sargs = append(sargs, fr.valOf(x.Val))
+		} else if need != 0 {
+			fr.u.eng.stale = append(fr.u.eng.stale, "assert@store "+cl.Label+": parameter mismatch")
+			continue
+		}
+		ok := true
+		for _, ln := range cl.VarLocal {
+			lv := fr.localNamed(ln, x, st)
+			if lv == nil {
+				fr.u.eng.stale = append(fr.u.eng.stale, "assert@store "+cl.Label+": local "+ln+" not found")
+				ok = false
+				break
+			}
+			sargs = append(sargs, lv)
+		}
+		if !ok {
+			continue
+		}
+		t := fr.evalSpec(cl, sargs, st, nil)
+		fr.u.oblige(fr.obName("assert", cl.Label), "assert", cl.Tags, reach, t, fr.pos(x.Pos()), cl.Text)
+		fr.u.assertsSeen[cl.Label] = true
 	}
 }
